@@ -338,12 +338,12 @@ def cases(tier, seed=0):
     for i, e in enumerate(exprs):
         allx.append(ws_variants(e, i % 3))
     for i, ch in enumerate(_chunks(allx, 24 if tier == 'quick' else 64)):
-        cs.append(Case(f'parse_{i}', h_parse(ch), bind=BIND, budget_s=150 if tier == 'quick' else 900, timeout_ms=20000,
+        cs.append(Case(f'parse_{i}', h_parse(ch), bind=BIND, reload=('atomman.unitconvert',), budget_s=150 if tier == 'quick' else 900, timeout_ms=20000,
                        descr=f'{len(ch)} unit expressions, e.g. {ch[0]!r}, {ch[-1]!r}'))
     for i, ch in enumerate(_chunks(ROUND, 6)):
-        cs.append(Case(f'roundtrip_{i}', h_roundtrip(ch), bind=BIND, budget_s=150, timeout_ms=20000, descr=f'set/get round trips for {ch}'))
+        cs.append(Case(f'roundtrip_{i}', h_roundtrip(ch), bind=BIND, reload=('atomman.unitconvert',), budget_s=150, timeout_ms=20000, descr=f'set/get round trips for {ch}'))
     for i, ch in enumerate(_chunks(SAMEDIM, 5)):
-        cs.append(Case(f'samedim_{i}', h_samedim(ch), bind=BIND, budget_s=150, timeout_ms=20000, descr=f'conversion factors under two independent working-unit systems: {ch}'))
+        cs.append(Case(f'samedim_{i}', h_samedim(ch), bind=BIND, reload=('atomman.unitconvert',), budget_s=150, timeout_ms=20000, descr=f'conversion factors under two independent working-unit systems: {ch}'))
     nnames = 2 if tier == 'quick' else 3
     keys = list(CATS)
     k = 0
@@ -354,9 +354,9 @@ def cases(tier, seed=0):
                 k += 1
                 if tier == 'quick' and r >= 3 and (k + seed) % 3: continue
                 ch = dict(zip(sub, names))
-                cs.append(Case('reset_' + '_'.join(f'{a}={b}' for a, b in ch.items()), h_reset(ch), bind=BIND, budget_s=100,
+                cs.append(Case('reset_' + '_'.join(f'{a}={b}' for a, b in ch.items()), h_reset(ch), bind=BIND, reload=('atomman.unitconvert',), budget_s=100,
                                timeout_ms=20000, descr=f'reset_units({ch})'))
-    cs.append(Case('reset_refusals', h_reset_refuse(), bind=BIND, descr='documented refusals of reset_units'))
+    cs.append(Case('reset_refusals', h_reset_refuse(), bind=BIND, reload=('atomman.unitconvert',), descr='documented refusals of reset_units'))
     for st in STYLES:
-        cs.append(Case(f'style_{st}', h_style(st), bind=BIND, budget_s=150, timeout_ms=20000, descr=f'LAMMPS unit style {st}: dimension of every mechanical table entry'))
+        cs.append(Case(f'style_{st}', h_style(st), bind=BIND, reload=('atomman.unitconvert',), budget_s=150, timeout_ms=20000, descr=f'LAMMPS unit style {st}: dimension of every mechanical table entry'))
     return cs
